@@ -7,8 +7,8 @@ EXTENDS StackedTable, Json, IOUtils, TLC
 
 Rec == ndJsonDeserialize(IOEnv.TRACE)
 
-VARIABLES l, saved, sqentries, known, nkeys
-tvars == <<l, saved, sqentries, known, nkeys>>
+VARIABLES l, saved, sqentries, known, nkeys, recopied
+tvars == <<l, saved, sqentries, known, nkeys, recopied>>
 
 ToSet(s) == {s[i] : i \in 1..Len(s)}
 Keys == 1..nkeys
@@ -51,7 +51,7 @@ RegressedKnown(e) ==      \* a LaterWins failure, every regressed key has the (f
   \A k \in Keys : LaterWinsIn(saved, e.vals, k) \/ SquashHidesAncestry(SqAfter(e), k, e.vals[k])
 RegressedKnown2(e) ==     \* ... or the second one
   \A k \in Keys : \/ LaterWinsIn(saved, e.vals, k) \/ SquashHidesAncestry(SqAfter(e), k, e.vals[k])
-                  \/ SharedRecopied(e, k, e.vals[k])
+                  \/ SharedRecopied(e, k, e.vals[k]) \/ <<k, e.vals[k]>> \in recopied
 
 GetHeadVerdict(e) ==
   IF Len(e.heads) = 0 THEN "HeadsEmptyAfterGetHead"
@@ -71,10 +71,10 @@ Verdict(e) ==
   ELSE IF e.op = "error" THEN "Error"
   ELSE "ok"
 
-TInit == l = 1 /\ saved = <<>> /\ sqentries = {} /\ known = {} /\ nkeys = 1
+TInit == l = 1 /\ saved = <<>> /\ sqentries = {} /\ known = {} /\ nkeys = 1 /\ recopied = {}
 
 Reset == /\ l <= Len(Rec) /\ Rec[l].op = "reset"
-         /\ saved' = <<>> /\ sqentries' = {} /\ known' = {} /\ nkeys' = Rec[l].nkeys
+         /\ saved' = <<>> /\ sqentries' = {} /\ known' = {} /\ nkeys' = Rec[l].nkeys /\ recopied' = {}
          /\ l' = l + 1
 
 Judge ==
@@ -85,15 +85,19 @@ Judge ==
                /\ saved' = Append(saved, [puts |-> PutMap(e), seen |-> e.seen])
                /\ sqentries' = sqentries \cup Folded(e.base_chain, e.chain)
                /\ known' = known \cup {[name |-> e.name, vals |-> e.vals]}
+               /\ UNCHANGED recopied
           ELSE IF e.op = "gethead" THEN
                /\ sqentries' = SqAfter(e)
                /\ known' = known \cup {[name |-> e.name, vals |-> e.vals]}
+               \* a regression explained by the second known shape stays visible in later loads
+               /\ recopied' = recopied \cup {<<k, e.vals[k]>> : k \in {j \in Keys : ~LaterWinsIn(saved, e.vals, j)
+                                                                            /\ SharedRecopied(e, j, e.vals[j])}}
                /\ UNCHANGED saved
-          ELSE UNCHANGED <<saved, sqentries, known>>
+          ELSE UNCHANGED <<saved, sqentries, known, recopied>>
   /\ l' = l + 1 /\ UNCHANGED nkeys
 
 Finish == /\ l = Len(Rec) + 1 /\ PrintT(<<"JUDGED", Len(Rec)>>)
-          /\ l' = l + 1 /\ UNCHANGED <<saved, sqentries, known, nkeys>>
+          /\ l' = l + 1 /\ UNCHANGED <<saved, sqentries, known, nkeys, recopied>>
 
 TNext == Reset \/ Judge \/ Finish
 TSpec == TInit /\ [][TNext]_tvars
